@@ -227,6 +227,17 @@ func (c *channel) deleteRouter(msgID uint64) {
 	c.responseMut.Lock()
 	defer c.responseMut.Unlock()
 	delete(c.responseRouters, msgID)
+	// nobody is waiting for the call anymore: a note that its request was failed is of no use
+	delete(c.failedUnsent, msgID)
+}
+
+// failRequest tells the caller of a request that the sender gives up on why it was not sent
+// (unless cancelPendingMsgs has told it already), and forgets the request.
+func (c *channel) failRequest(msgID uint64, err error) {
+	c.responseMut.Lock()
+	delete(c.failedUnsent, msgID)
+	c.responseMut.Unlock()
+	c.routeResponse(msgID, response{nid: c.node.ID(), err: err})
 }
 
 // failedBeforeSent reports (once) whether the request with the given message ID was failed by
@@ -341,14 +352,14 @@ func (c *channel) sender() {
 		}
 		// return error if stream is broken
 		if c.streamBroken.get() {
-			c.routeResponse(req.msg.Metadata.MessageID, response{nid: c.node.ID(), err: streamDownErr})
+			c.failRequest(req.msg.Metadata.MessageID, streamDownErr)
 			continue
 		}
 		// else try to send message
 		err := c.sendMsg(req)
 		if err != nil {
 			// return the error
-			c.routeResponse(req.msg.Metadata.MessageID, response{nid: c.node.ID(), err: err})
+			c.failRequest(req.msg.Metadata.MessageID, err)
 		}
 	}
 }
